@@ -59,6 +59,7 @@ def run(chk):
     chk.trusted.append('torch conv/linear/BatchNorm kernels and torch.fx graph surgery (exercised by the eval-vs-export oracle)')
     chk.assumptions.append("causally (left-)padded Conv1d; 'same'/unpadded time pruning is outside the statement")
     chk.prove()
+    chk.prove('PlinioVerif.Props.C01Net')
     kmax = 9 if chk.quick else 12
     cases = _time_cases(chk, kmax)
     # ---- (a) layer level, direct objects
